@@ -11,7 +11,8 @@ static uint8_t g_k[SM9_MAX_PLAINTEXT_SIZE + 32]; static int g_kem_verdict; stati
 int sm9_kem_decrypt(const SM9_ENC_KEY *key, const char *id, size_t idlen, const SM9_Z256_POINT *C, size_t klen, uint8_t *kbuf)
 { g_klen = klen; if (g_kem_verdict != 1) return -1; for (size_t i = 0; i < CL + 32; i++) { g_k[i] = nondet_u8(); kbuf[i] = g_k[i]; } return 1; }
 static const uint8_t *h_keyp; static size_t h_keylen; static const uint8_t *h_data; static size_t h_datalen; static uint8_t h_mac[32]; static int h_upd;
-void sm3_hmac_init(SM3_HMAC_CTX *c, const uint8_t *key, size_t keylen) { h_keyp = key; h_keylen = keylen; }
+static uint8_t h_key[32];
+void sm3_hmac_init(SM3_HMAC_CTX *c, const uint8_t *key, size_t keylen) { h_keyp = key; h_keylen = keylen; if (keylen == 32) for (int i = 0; i < 32; i++) h_key[i] = key[i]; }
 void sm3_hmac_update(SM3_HMAC_CTX *c, const uint8_t *d, size_t n) { h_upd++; h_data = d; h_datalen = n; }
 void sm3_hmac_finish(SM3_HMAC_CTX *c, uint8_t mac[32]) { for (int i = 0; i < 32; i++) { h_mac[i] = nondet_u8(); mac[i] = h_mac[i]; } }
 void h_sm9_decrypt(void)
@@ -27,8 +28,31 @@ void h_sm9_decrypt(void)
 		CHECK(g_kem_verdict == 1, "KEM decapsulation succeeded");
 		CHECK(h_upd == 1 && h_data == c2 && h_datalen == CL, "MAC over exactly C2");
 		CHECK(h_keylen == 32, "MAC key K2 is 32 bytes taken after K1");
+		for (int i = 0; i < 32; i++) CHECK(h_key[i] == g_k[CL + i], "K2 = the 32 bytes of key material right after K1");
 		for (int i = 0; i < 32; i++) CHECK(c3[i] == h_mac[i], "all 32 bytes of C3 compared with the MAC");
 		for (int i = 0; i < CL; i++) CHECK(out[i] == (uint8_t)(c2[i] ^ g_k[i]), "M = C2 xor K1");
+	}
+	V_REACH();
+}
+/* sm9_do_encrypt: C2 = M xor K1, C3 = HMAC(K2, C2) with (K1 || K2) the first |M| + 32 bytes of the encapsulated key; nothing is produced when encapsulation fails */
+int sm9_kem_encrypt(const SM9_ENC_MASTER_KEY *mpk, const char *id, size_t idlen, size_t klen, uint8_t *kbuf, SM9_Z256_POINT *C)
+{ g_klen = klen; if (g_kem_verdict != 1) return -1; for (size_t i = 0; i < CL + 32; i++) { g_k[i] = nondet_u8(); kbuf[i] = g_k[i]; } return 1; }
+void h_sm9_encrypt(void)
+{
+	SM9_ENC_MASTER_KEY mpk; SM9_Z256_POINT C1; memset(&mpk, 0, sizeof(mpk));
+	uint8_t m[CL], c2[CL], c3[32];
+	for (int i = 0; i < CL; i++) { m[i] = nondet_u8(); c2[i] = 0x5c; }
+	g_kem_verdict = nondet_bool() ? 1 : -1;
+	int ret = sm9_do_encrypt(&mpk, "id", 2, m, CL, &C1, c2, c3);
+	CHECK((ret == 1) == (g_kem_verdict == 1), "encryption succeeds exactly when the encapsulation did");
+	if (ret == 1) {
+		V_COVER("sm9 ciphertext produced");
+		CHECK(g_klen >= CL + 32, "enough key material requested for K1 || K2");
+		for (int i = 0; i < CL; i++) CHECK(c2[i] == (uint8_t)(m[i] ^ g_k[i]), "C2 = M xor K1");
+		CHECK(h_upd == 1 && h_data == c2 && h_datalen == CL, "MAC over exactly C2");
+		CHECK(h_keylen == 32, "MAC key K2 is 32 bytes");
+		for (int i = 0; i < 32; i++) CHECK(h_key[i] == g_k[CL + i], "K2 = the 32 bytes of key material right after K1");
+		for (int i = 0; i < 32; i++) CHECK(c3[i] == h_mac[i], "C3 = the MAC");
 	}
 	V_REACH();
 }
